@@ -183,7 +183,7 @@ theorem crashCompress_phase (c : Codec α γ) (s : Fs α γ) (l : List α) (hl :
         have hC : ¬ el.length + (m + 1 + 1 + 1) + 1 = el.length + 3 := by omega
         rw [if_neg hB]
         cases keep
-        · have hD : ¬ (el.length + (m + 1 + 1 + 1) + 1 = el.length + 3 ∨ false = true) := by simp; omega
+        · have hD : ¬ (el.length + (m + 1 + 1 + 1) + 1 = el.length + 3 ∨ false = true) := by simp
           rw [if_neg hD]
           simp [applyPrims, applyPrim]
         · rw [if_pos (Or.inr rfl)]
@@ -269,16 +269,15 @@ theorem crashCompress_cases (c : Codec α γ) (s : Fs α γ) (fb : DataName) (ke
   cases fb with
   | cbin => left; rfl
   | bin =>
-    cases hb : s.bin with
-    | none => left; simp [s', crashCompress, hb]
-    | some l =>
-      by_cases hne : l = []
+    rcases Option.eq_none_or_eq_some s.bin with hb | ⟨l, hb⟩
+    · left; simp [s', crashCompress, hb]
+    · by_cases hne : l = []
       · left; subst hne; simp [s', crashCompress, hb]
       · have h : s' = _ := crashCompress_phase c s l hb hne keep k
         by_cases h0 : k = 0
         · left; rw [h, if_pos h0]
         · right
-          refine ⟨l, rfl, rfl, hne, ?_⟩
+          refine ⟨l, rfl, hb, hne, ?_⟩
           rw [if_neg h0] at h
           by_cases h1 : k ≤ l.length + 1
           · left
@@ -298,7 +297,25 @@ theorem crashCompress_cases (c : Codec α γ) (s : Fs α γ) (fb : DataName) (ke
 
 /-! ### `decompress_file` and `decompress_to_scratch` -/
 
-/-- The primitive effects of `mtscomp.decompress(…, out, overwrite)` followed by `r.close()` when `x.cbin` holds `cs`. -/
+theorem applyPrims_take_out_phase (s : Fs α γ) (A : List (Prim α γ)) (o : OutName) (dl : List α) (rest : List (Prim α γ))
+    (j : Nat) (hj : j ≤ dl.length) :
+    applyPrims s ((A ++ (Prim.truncOut o :: (dl.map (Prim.appendOut o) ++ rest))).take (A.length + (j + 1))) =
+      (applyPrims s A).setOut o (some (dl.take j)) := by
+  rw [List.take_length_add_append, applyPrims_append, take_chunk_phase _ _ _ _ _ hj, applyPrims_cons]
+  simp only [applyPrim]
+  rw [applyPrims_appendOut]
+  simp
+
+theorem applyPrims_take_out_after (s : Fs α γ) (A : List (Prim α γ)) (o : OutName) (dl : List α) (rest : List (Prim α γ))
+    (m : Nat) :
+    applyPrims s ((A ++ (Prim.truncOut o :: (dl.map (Prim.appendOut o) ++ rest))).take (A.length + (dl.length + m + 1))) =
+      applyPrims ((applyPrims s A).setOut o (some dl)) (rest.take m) := by
+  rw [List.take_length_add_append, applyPrims_append, take_after_chunks, applyPrims_cons, applyPrims_append]
+  simp only [applyPrim]
+  rw [applyPrims_appendOut]
+  simp
+
+/-- The primitive effects of `decompress_file` when `x.cbin` holds `cs`. -/
 theorem prims_decompress (c : Codec α γ) (s : Fs α γ) (cs : List γ) (hc : s.cbin = some cs) (keep : Bool) (out : OutName)
     (ov : Bool) :
     prims c s (decompressCalls keep out ov) =
@@ -306,13 +323,502 @@ theorem prims_decompress (c : Codec α γ) (s : Fs α γ) (cs : List γ) (hc : s
         (.truncOut out :: ((cs.map c.dec).map (.appendOut out) ++ (if keep then [] else [.unlinkCbin, .unlinkCh]))) := by
   cases keep <;> simp [prims, decompressCalls, expandCall, expandBasic, hc]
 
-theorem prims_toScratch (c : Codec α γ) (s : Fs α γ) (cs : List γ) (hc : s.cbin = some cs) (scratch present : Bool) :
-    let out : OutName := if scratch then .sbinTemp else .binTemp
-    prims c s (toScratchCalls scratch present) =
-      (if scratch then [.copyMeta] else []) ++
-        (if present then [] else
-          (if (s.getOut out).isSome then [.removeOut out] else []) ++
-            (.truncOut out :: ((cs.map c.dec).map (.appendOut out) ++ [.moveTemp scratch]))) := by
-  cases scratch <;> cases present <;> simp [prims, toScratchCalls, expandCall, expandBasic, decompressCalls, hc]
+/-- The primitive effects of `decompress_to_scratch` when `x.cbin` holds `cs` and the target does not exist. -/
+theorem prims_toScratch_absent (c : Codec α γ) (s : Fs α γ) (cs : List γ) (hc : s.cbin = some cs) (scratch : Bool) :
+    prims c s (toScratchCalls scratch false) =
+      ((if scratch then [.copyMeta] else []) ++
+        (if (s.getOut (if scratch then .sbinTemp else .binTemp)).isSome
+          then [.removeOut (if scratch then .sbinTemp else .binTemp)] else [])) ++
+        (.truncOut (if scratch then .sbinTemp else .binTemp) ::
+          ((cs.map c.dec).map (.appendOut (if scratch then .sbinTemp else .binTemp)) ++ [.moveTemp scratch])) := by
+  cases scratch <;> simp [prims, toScratchCalls, expandCall, expandBasic, decompressCalls, hc]
+
+theorem prims_toScratch_present (c : Codec α γ) (s : Fs α γ) (scratch : Bool) :
+    prims c s (toScratchCalls scratch true) = if scratch then [.copyMeta] else [] := by
+  cases scratch <;> simp [prims, toScratchCalls, expandCall, expandBasic]
+
+/-- Primitive effects that touch nothing but temporary names (and the copied metadata). -/
+def Prim.tempOnly : Prim α γ → Bool
+  | .truncCbinTmp | .appendCbinTmp _ | .copyMeta => true
+  | .removeOut o | .truncOut o | .appendOut o _ => o != .bin
+  | _ => false
+
+/-- The files under a final name are the same in both directories. -/
+structure SameFinal (s s' : Fs α γ) : Prop where
+  bin : s'.bin = s.bin
+  cbin : s'.cbin = s.cbin
+  ch : s'.ch = s.ch
+  sbin : s'.sbin = s.sbin
+
+theorem SameFinal.refl (s : Fs α γ) : SameFinal s s := ⟨rfl, rfl, rfl, rfl⟩
+
+theorem SameFinal.trans {s s' s'' : Fs α γ} (h : SameFinal s s') (h' : SameFinal s' s'') : SameFinal s s'' :=
+  ⟨h'.bin.trans h.bin, h'.cbin.trans h.cbin, h'.ch.trans h.ch, h'.sbin.trans h.sbin⟩
+
+theorem sameFinal_applyPrim (s : Fs α γ) (p : Prim α γ) (hp : p.tempOnly = true) : SameFinal s (applyPrim s p) := by
+  cases p with
+  | removeOut o => cases o <;> simp [Prim.tempOnly] at hp <;> exact ⟨rfl, rfl, rfl, rfl⟩
+  | truncOut o => cases o <;> simp [Prim.tempOnly] at hp <;> exact ⟨rfl, rfl, rfl, rfl⟩
+  | appendOut o a => cases o <;> simp [Prim.tempOnly] at hp <;> exact ⟨rfl, rfl, rfl, rfl⟩
+  | truncCbinTmp => exact ⟨rfl, rfl, rfl, rfl⟩
+  | appendCbinTmp g => exact ⟨rfl, rfl, rfl, rfl⟩
+  | copyMeta => exact ⟨rfl, rfl, rfl, rfl⟩
+  | writeCh h => simp [Prim.tempOnly] at hp
+  | renameTmp => simp [Prim.tempOnly] at hp
+  | unlinkBin => simp [Prim.tempOnly] at hp
+  | unlinkCbin => simp [Prim.tempOnly] at hp
+  | unlinkCh => simp [Prim.tempOnly] at hp
+  | moveTemp b => simp [Prim.tempOnly] at hp
+
+theorem tempOnly_pre (scratch b : Bool) :
+    ∀ p ∈ ((if scratch then [Prim.copyMeta] else []) ++
+      (if b then [Prim.removeOut (if scratch then OutName.sbinTemp else OutName.binTemp)] else []) : List (Prim α γ)),
+      p.tempOnly = true := by
+  cases scratch <;> cases b <;> simp [Prim.tempOnly]
+
+theorem sameFinal_trace (ps : List (Prim α γ)) : ∀ (s s' : Fs α γ), (∀ p ∈ ps, p.tempOnly = true) → s' ∈ trace s ps →
+    SameFinal s s' := by
+  induction ps with
+  | nil => intro s s' _ h; simp [trace] at h; subst h; exact SameFinal.refl _
+  | cons p ps ih =>
+    intro s s' hp h
+    simp only [trace, List.mem_cons] at h
+    rcases h with rfl | h
+    · exact SameFinal.refl _
+    · exact (sameFinal_applyPrim s p (hp p (by simp))).trans (ih _ _ (fun q hq => hp q (by simp [hq])) h)
+
+/-- What a prefix of `decompress_to_scratch`'s effects leaves behind: either every file under a final name is as before
+(only the copied metadata and the `.bin_temp` file of the target directory may differ), or — after the very last effect —
+the complete decompressed recording has been moved onto the (previously absent) target. -/
+theorem crashToScratch_spec (c : Codec α γ) (s : Fs α γ) (fb : DataName) (scratch : Bool) (k : Nat) :
+    let s' := crashToScratch c s fb scratch k
+    SameFinal s s' ∨
+    ∃ cs, fb = .cbin ∧ s.cbin = some cs ∧ s.ch.isSome ∧ (if scratch then s.sbin else s.bin) = none ∧
+      s'.cbin = s.cbin ∧ s'.ch = s.ch ∧
+      (if scratch then s'.bin = s.bin ∧ s'.sbin = some (cs.map c.dec) ∧ s'.sbinTemp = none
+       else s'.sbin = s.sbin ∧ s'.bin = some (cs.map c.dec) ∧ s'.binTemp = none) := by
+  intro s'
+  have hmeta : ∀ k, SameFinal s (applyPrims s ((prims c s [Call.mkdirScratch, Call.copyMeta]).take k)) := by
+    intro k
+    rcases k with _ | k <;> simp [prims, expandCall, expandBasic, applyPrims, applyPrim] <;> exact ⟨rfl, rfl, rfl, rfl⟩
+  have hfallback : s' = (if scratch then applyPrims s ((prims c s [Call.mkdirScratch, Call.copyMeta]).take k) else s) →
+      SameFinal s s' := by
+    intro h
+    rw [h]
+    cases scratch
+    · exact SameFinal.refl _
+    · exact hmeta k
+  cases fb with
+  | bin => left; exact hfallback rfl
+  | cbin =>
+    rcases Option.eq_none_or_eq_some s.cbin with hcb | ⟨cs, hcb⟩
+    · left; apply hfallback; simp [s', crashToScratch, hcb]
+    · rcases Option.eq_none_or_eq_some s.ch with hch | ⟨h, hch⟩
+      · left; apply hfallback; simp [s', crashToScratch, hcb, hch]
+      · have hs' : s' = applyPrims s ((prims c s (toScratchCalls scratch (if scratch then s.sbin else s.bin).isSome)).take k) := by
+          simp [s', crashToScratch, hcb, hch]
+        have hmem := applyPrims_take_mem_trace (prims c s (toScratchCalls scratch (if scratch then s.sbin else s.bin).isSome)) s k
+        rw [← hs'] at hmem
+        rcases Option.eq_none_or_eq_some (if scratch then s.sbin else s.bin) with hpres | ⟨v, hpres⟩
+        · rw [hpres, Option.isSome_none, prims_toScratch_absent c s cs hcb scratch, mem_trace_append] at hmem
+          rcases hmem with hmem | hmem
+          · left
+            exact sameFinal_trace _ _ _ (tempOnly_pre scratch _) hmem
+          · -- the state after the metadata copy and the removal of a stale temporary file
+            have hpre : ∃ s1 : Fs α γ, applyPrims s ((if scratch then [Prim.copyMeta] else []) ++
+                (if (s.getOut (if scratch then .sbinTemp else .binTemp)).isSome
+                  then [Prim.removeOut (if scratch then .sbinTemp else .binTemp)] else [])) = s1 ∧ SameFinal s s1 :=
+              ⟨_, rfl, by
+                cases scratch <;> simp only [Bool.false_eq_true, if_false, if_true] <;> split <;>
+                  simp [applyPrims, applyPrim, Fs.setOut] <;> exact ⟨rfl, rfl, rfl, rfl⟩⟩
+            obtain ⟨s1, hs1, hsame⟩ := hpre
+            rw [hs1] at hmem
+            simp only [trace, List.mem_cons] at hmem
+            rcases hmem with h1 | hmem
+            · left; rw [h1]; exact hsame
+            · have hsplit := (mem_trace_append ((cs.map c.dec).map (Prim.appendOut (if scratch then OutName.sbinTemp else OutName.binTemp)))
+                [Prim.moveTemp scratch] (applyPrim s1 (Prim.truncOut (if scratch then OutName.sbinTemp else OutName.binTemp))) s').mp hmem
+              rcases hsplit with hmem | hmem
+              · left
+                refine hsame.trans ((sameFinal_applyPrim s1 _ (by cases scratch <;> simp [Prim.tempOnly])).trans
+                  (sameFinal_trace _ _ _ ?_ hmem))
+                intro p hp
+                simp only [List.mem_map] at hp
+                obtain ⟨a, _, rfl⟩ := hp
+                cases scratch <;> simp [Prim.tempOnly]
+              · simp only [applyPrim] at hmem
+                rw [applyPrims_appendOut] at hmem
+                simp only [trace, List.mem_cons, List.nil_append, List.not_mem_nil, or_false] at hmem
+                rcases hmem with h1 | h1
+                · left
+                  rw [h1]
+                  refine hsame.trans ?_
+                  cases scratch <;> exact ⟨rfl, rfl, rfl, rfl⟩
+                · right
+                  refine ⟨cs, rfl, hcb, by simp [hch], hpres, ?_⟩
+                  rw [h1]
+                  cases scratch
+                  · simp [applyPrim, Fs.setOut, hsame.cbin, hsame.ch, hsame.sbin]
+                  · simp [applyPrim, Fs.setOut, hsame.cbin, hsame.ch, hsame.bin]
+        · left
+          rw [hpres, Option.isSome_some, prims_toScratch_present] at hmem
+          refine sameFinal_trace _ _ _ ?_ hmem
+          intro p hp
+          cases scratch <;> simp_all [Prim.tempOnly]
+
+/-- Number of primitive effects after which the fault points of `toScratch` interrupt it (`n` chunks; `stale`: a left-over
+`.bin_temp` file is removed first). -/
+def toScratchCrashPoint (scratch stale : Bool) (n : Nat) (fault : Option Nat) (mf : Bool) : Nat :=
+  ((if scratch then 1 else 0) + (if stale then 1 else 0)) +
+    (match fault with
+     | some j => if j < n then j + 1 else if mf then n + 0 + 1 else n + 1 + 1
+     | none => if mf then n + 0 + 1 else n + 1 + 1)
+
+theorem ite_fst_same {A B : Type} {p : Prop} [Decidable p] (a : A) (x y : B) : (if p then (a, x) else (a, y)).1 = a := by
+  split <;> rfl
+
+/-- **`toScratch` is the interpretation of its effect list**, at every fault point (the header describing the compressed
+file, `HdrOk`). -/
+theorem toScratch_eq_crash [DecidableEq γ] (c : Codec α γ) (s : Fs α γ) (fb : DataName) (scratch : Bool)
+    (fault : Option Nat) (mf : Bool) (hh : HdrOk s) (n : Nat) (hn : ∀ cs, s.cbin = some cs → n = cs.length) :
+    (toScratch c s fb scratch fault mf).1 =
+      crashToScratch c s fb scratch
+        (toScratchCrashPoint scratch (s.getOut (if scratch then .sbinTemp else .binTemp)).isSome n fault mf) := by
+  have hk1 : ∀ st, 1 ≤ toScratchCrashPoint true st n fault mf := by
+    intro st; unfold toScratchCrashPoint; simp; omega
+  have hmeta : ∀ k, 1 ≤ k → applyPrims s ((prims c s [Call.mkdirScratch, Call.copyMeta]).take k) = { s with smeta := true } := by
+    intro k hk
+    obtain ⟨k', rfl⟩ : ∃ k', k = k' + 1 := ⟨k - 1, by omega⟩
+    simp [prims, expandCall, expandBasic, applyPrims, applyPrim]
+  -- the calls the code refuses after (at most) copying the metadata
+  have hrefused : (toScratch c s fb scratch fault mf).1 = (if scratch then { s with smeta := true } else s) →
+      (∀ k, crashToScratch c s fb scratch k =
+        if scratch then applyPrims s ((prims c s [Call.mkdirScratch, Call.copyMeta]).take k) else s) →
+      (toScratch c s fb scratch fault mf).1 =
+        crashToScratch c s fb scratch (toScratchCrashPoint scratch (s.getOut (if scratch then .sbinTemp else .binTemp)).isSome n fault mf) := by
+    intro h1 h2
+    rw [h1, h2]
+    cases scratch
+    · rfl
+    · simp only [if_true]; rw [hmeta _ (hk1 _)]
+  cases fb with
+  | bin =>
+    apply hrefused
+    · cases scratch <;> simp [toScratch, decompressFile, ite_fst_same]
+    · intro k; simp [crashToScratch]
+  | cbin =>
+    rcases Option.eq_none_or_eq_some s.cbin with hcb | ⟨cs, hcb⟩
+    · apply hrefused
+      · cases scratch <;> cases hch' : s.ch <;> simp [toScratch, decompressFile, hcb, hch', ite_fst_same]
+      · intro k; simp [crashToScratch, hcb]
+    · have hch : s.ch = some cs := hh cs hcb
+      have hncs : n = cs.length := hn cs hcb
+      subst hncs
+      have hcr : ∀ k, crashToScratch c s .cbin scratch k =
+          applyPrims s ((prims c s (toScratchCalls scratch (if scratch then s.sbin else s.bin).isSome)).take k) := by
+        intro k; simp [crashToScratch, hcb, hch]
+      rw [hcr]
+      rcases Option.eq_none_or_eq_some (if scratch then s.sbin else s.bin) with hpres | ⟨v, hpres⟩
+      · -- the target is absent: decompression to the temporary name, then the move
+        rw [hpres, Option.isSome_none, prims_toScratch_absent c s cs hcb scratch]
+        generalize hA : ((if scratch then [Prim.copyMeta] else []) ++
+            (if (s.getOut (if scratch then OutName.sbinTemp else OutName.binTemp)).isSome
+              then [Prim.removeOut (if scratch then OutName.sbinTemp else OutName.binTemp)] else []) : List (Prim α γ)) = A
+        have hAlen : (if scratch then 1 else 0) +
+            (if (s.getOut (if scratch then OutName.sbinTemp else OutName.binTemp)).isSome then 1 else 0) = A.length := by
+          rw [← hA]; cases scratch <;> simp <;> split <;> simp
+        have hAs : (applyPrims s A).setOut (if scratch then OutName.sbinTemp else OutName.binTemp) =
+            (if scratch then { s with smeta := true } else s).setOut (if scratch then OutName.sbinTemp else OutName.binTemp) := by
+          rw [← hA]
+          funext v
+          cases scratch <;> simp only [Bool.false_eq_true, if_false, if_true] <;> split <;>
+            simp [applyPrims, applyPrim, Fs.setOut]
+        have hlenmap : cs.length = (cs.map c.dec).length := by simp
+        unfold toScratchCrashPoint
+        rw [hAlen]
+        -- the model step
+        have hstep : (toScratch c s .cbin scratch fault mf).1 =
+            match writeChunks fault (cs.map c.dec) with
+            | (part, false) => (if scratch then { s with smeta := true } else s).setOut (if scratch then .sbinTemp else .binTemp) (some part)
+            | (all, true) =>
+              if mf then (if scratch then { s with smeta := true } else s).setOut (if scratch then .sbinTemp else .binTemp) (some all)
+              else applyPrim ((if scratch then { s with smeta := true } else s).setOut (if scratch then .sbinTemp else .binTemp) (some all))
+                (.moveTemp scratch) := by
+          cases scratch
+          · simp only [Bool.false_eq_true, if_false] at hpres
+            simp only [toScratch, decompressFile, hcb, hch, hpres, Bool.false_eq_true, if_false, Option.isSome_none, ne_eq,
+              not_true_eq_false, Bool.not_true, Bool.false_and]
+            cases hw : writeChunks fault (cs.map c.dec) with
+            | mk p fin => cases fin <;> cases mf <;> simp [Fs.setOut, applyPrim]
+          · simp only [if_true] at hpres
+            simp only [toScratch, decompressFile, hcb, hch, hpres, if_true, Option.isSome_none, ne_eq,
+              not_true_eq_false, Bool.not_true, Bool.false_and, Bool.false_eq_true, if_false]
+            cases hw : writeChunks fault (cs.map c.dec) with
+            | mk p fin => cases fin <;> cases mf <;> simp [Fs.setOut, applyPrim]
+        rw [hstep]
+        cases hw : writeChunks fault (cs.map c.dec) with
+        | mk p fin =>
+          cases fin with
+          | false =>
+            obtain ⟨j, hj, hlt, hp⟩ := writeChunks_false _ _ _ hw
+            subst hj
+            have hlt' : j < cs.length := by simpa using hlt
+            simp only [hlt', if_true]
+            rw [applyPrims_take_out_phase s A _ _ _ j (by omega), hAs, hp]
+          | true =>
+            have hp := writeChunks_true _ _ _ hw
+            subst hp
+            have hpoint : (match fault with
+                | some j => if j < cs.length then j + 1 else if mf = true then cs.length + 0 + 1 else cs.length + 1 + 1
+                | none => if mf = true then cs.length + 0 + 1 else cs.length + 1 + 1) =
+                (if mf = true then cs.length + 0 + 1 else cs.length + 1 + 1) := by
+              cases fault with
+              | none => rfl
+              | some j =>
+                have : ¬ j < cs.length := by
+                  intro hj
+                  simp [writeChunks, hj] at hw
+                simp [this]
+            rw [hpoint]
+            cases mf
+            · simp only [Bool.false_eq_true, if_false]
+              rw [hlenmap, applyPrims_take_out_after s A _ _ _ 1, hAs]
+              simp [applyPrims]
+            · simp only [if_true]
+              rw [hlenmap, applyPrims_take_out_after s A _ _ _ 0, hAs]
+              simp [applyPrims]
+      · -- the target is already there
+        rw [hpres, Option.isSome_some, prims_toScratch_present]
+        cases scratch
+        · simp only [Bool.false_eq_true, if_false] at hpres
+          simp [toScratch, hpres, applyPrims]
+        · simp only [if_true] at hpres
+          have h1 := hk1 (s.getOut OutName.sbinTemp).isSome
+          obtain ⟨k', hk'⟩ : ∃ k', toScratchCrashPoint true (s.getOut OutName.sbinTemp).isSome cs.length fault mf = k' + 1 :=
+            ⟨_, (Nat.sub_add_cancel h1).symm⟩
+          simp [toScratch, hpres, hk', applyPrims, applyPrim]
+
+/-! ### In-place `decompress_file` -/
+
+/-- Effects that only write (remove / create / extend) an output of the decompression. -/
+def Prim.outWrite : Prim α γ → Bool
+  | .removeOut _ | .truncOut _ | .appendOut _ _ => true
+  | _ => false
+
+theorem srcKept_trace (ps : List (Prim α γ)) : ∀ (s s' : Fs α γ), (∀ p ∈ ps, p.outWrite = true) → s' ∈ trace s ps →
+    s'.cbin = s.cbin ∧ s'.ch = s.ch := by
+  induction ps with
+  | nil => intro s s' _ h; simp [trace] at h; subst h; exact ⟨rfl, rfl⟩
+  | cons p ps ih =>
+    intro s s' hp h
+    simp only [trace, List.mem_cons] at h
+    rcases h with rfl | h
+    · exact ⟨rfl, rfl⟩
+    · have h1 := ih _ _ (fun q hq => hp q (by simp [hq])) h
+      have h2 : (applyPrim s p).cbin = s.cbin ∧ (applyPrim s p).ch = s.ch := by
+        have := hp p (by simp)
+        cases p with
+        | removeOut o => cases o <;> exact ⟨rfl, rfl⟩
+        | truncOut o => cases o <;> exact ⟨rfl, rfl⟩
+        | appendOut o a => cases o <;> exact ⟨rfl, rfl⟩
+        | _ => simp [Prim.outWrite] at this
+      exact ⟨h1.1.trans h2.1, h1.2.trans h2.2⟩
+
+/-- What a prefix of the effects of `decompress_file` (default output `x.bin`) leaves behind: the compressed source and its
+header are intact, or — in the in-place variant, after the decompression ran to its end — `x.bin` is the complete decoded
+recording.  (The plain call is not atomic on `x.bin` itself: a prefix can leave a partial `x.bin` NEXT TO the intact source.) -/
+theorem crashDecompress_spec (c : Codec α γ) (s : Fs α γ) (fb : DataName) (keep ov : Bool) (k : Nat) :
+    let s' := crashDecompress c s fb keep ov k
+    (s'.cbin = s.cbin ∧ s'.ch = s.ch) ∨
+    (keep = false ∧ ∃ cs, s.cbin = some cs ∧ s'.bin = some (cs.map c.dec) ∧ s'.cbin = none) := by
+  intro s'
+  cases fb with
+  | bin => left; exact ⟨rfl, rfl⟩
+  | cbin =>
+    rcases Option.eq_none_or_eq_some s.cbin with hcb | ⟨cs, hcb⟩
+    · left; simp [s', crashDecompress, hcb]
+    · rcases Option.eq_none_or_eq_some s.ch with hch | ⟨h, hch⟩
+      · left; simp [s', crashDecompress, hcb, hch]
+      · by_cases hov : (!ov && s.bin.isSome) = true
+        · left; simp [s', crashDecompress, hcb, hch, hov]
+        · have hs' : s' = applyPrims s ((prims c s (decompressCalls keep .bin ov)).take k) := by
+            simp [s', crashDecompress, hcb, hch, hov]
+          have hmem := applyPrims_take_mem_trace (prims c s (decompressCalls keep .bin ov)) s k
+          rw [← hs', prims_decompress c s cs hcb keep .bin ov] at hmem
+          have hsplit : (if ov && (s.getOut .bin).isSome then [Prim.removeOut OutName.bin] else []) ++
+              (Prim.truncOut OutName.bin :: ((cs.map c.dec).map (Prim.appendOut OutName.bin) ++
+                (if keep then [] else [Prim.unlinkCbin, Prim.unlinkCh]))) =
+              ((if ov && (s.getOut .bin).isSome then [Prim.removeOut OutName.bin] else []) ++
+                (Prim.truncOut OutName.bin :: (cs.map c.dec).map (Prim.appendOut (γ := γ) OutName.bin))) ++
+                (if keep then [] else [Prim.unlinkCbin, Prim.unlinkCh]) := by simp
+          rw [hsplit, mem_trace_append] at hmem
+          have hw : ∀ p ∈ ((if ov && (s.getOut .bin).isSome then [Prim.removeOut OutName.bin] else []) ++
+              (Prim.truncOut OutName.bin :: (cs.map c.dec).map (Prim.appendOut (γ := γ) OutName.bin)) : List (Prim α γ)),
+              p.outWrite = true := by
+            intro p hp
+            simp only [List.mem_append, List.mem_cons, List.mem_map] at hp
+            rcases hp with hp | rfl | ⟨a, _, rfl⟩
+            · split at hp <;> simp_all [Prim.outWrite]
+            · rfl
+            · rfl
+          rcases hmem with hmem | hmem
+          · left; exact srcKept_trace _ _ _ hw hmem
+          · have hfull : applyPrims s ((if ov && (s.getOut .bin).isSome then [Prim.removeOut OutName.bin] else []) ++
+                (Prim.truncOut OutName.bin :: (cs.map c.dec).map (Prim.appendOut (γ := γ) OutName.bin))) =
+                s.setOut .bin (some (cs.map c.dec)) := by
+              rw [applyPrims_append, applyPrims_cons]
+              simp only [applyPrim]
+              have : ∀ s1 : Fs α γ, applyPrims (s1.setOut OutName.bin (some [])) ((cs.map c.dec).map (Prim.appendOut OutName.bin)) =
+                  s1.setOut .bin (some (cs.map c.dec)) := by
+                intro s1; rw [applyPrims_appendOut]; simp
+              rw [this]
+              split <;> simp [applyPrims, applyPrim, Fs.setOut]
+            rw [hfull] at hmem
+            cases keep with
+            | true =>
+              left
+              simp only [if_true, trace, List.mem_singleton] at hmem
+              rw [hmem]; exact ⟨rfl, rfl⟩
+            | false =>
+              simp only [Bool.false_eq_true, if_false, trace, applyPrim, List.mem_cons, List.not_mem_nil, or_false] at hmem
+              rcases hmem with h1 | h1 | h1
+              · left; rw [h1]; exact ⟨rfl, rfl⟩
+              · right; exact ⟨rfl, cs, hcb, by rw [h1]; simp [Fs.setOut], by rw [h1]⟩
+              · right; exact ⟨rfl, cs, hcb, by rw [h1]; simp [Fs.setOut], by rw [h1]⟩
+
+/-- Number of primitive effects after which the chunk fault of `decompressFile` interrupts it (`stale`: an existing output is
+removed first on `overwrite=True`). -/
+def faultPoint (n : Nat) (fault : Option Nat) (full : Nat) : Nat :=
+  match fault with
+  | some j => if j < n then j + 1 else full
+  | none => full
+
+theorem faultPoint_full (n : Nat) (fault : Option Nat) (full : Nat) (h : ∀ j, fault = some j → ¬ j < n) :
+    faultPoint n fault full = full := by
+  cases fault with
+  | none => rfl
+  | some j => simp [faultPoint, h j rfl]
+
+def decompressCrashPoint (stale : Bool) (n : Nat) (fault : Option Nat) : Nat :=
+  (if stale then 1 else 0) + faultPoint n fault (n + 2 + 1)
+
+/-- **`decompressFile` (default output) is the interpretation of its effect list**, at every fault point. -/
+theorem decompressFile_eq_crash [DecidableEq γ] (c : Codec α γ) (s : Fs α γ) (fb : DataName) (keep ov : Bool)
+    (fault : Option Nat) (hh : HdrOk s) (n : Nat) (hn : ∀ cs, s.cbin = some cs → n = cs.length) :
+    (decompressFile c s fb keep .bin ov fault).1 =
+      crashDecompress c s fb keep ov (decompressCrashPoint (ov && s.bin.isSome) n fault) := by
+  cases fb with
+  | bin => rfl
+  | cbin =>
+    rcases Option.eq_none_or_eq_some s.cbin with hcb | ⟨cs, hcb⟩
+    · cases hch' : s.ch <;> simp [decompressFile, crashDecompress, hcb, hch']
+    · have hch : s.ch = some cs := hh cs hcb
+      have hncs : n = cs.length := hn cs hcb
+      subst hncs
+      by_cases hov : (!ov && s.bin.isSome) = true
+      · simp [decompressFile, crashDecompress, hcb, hch, hov, Fs.getOut]
+      · have hcr : ∀ k, crashDecompress c s .cbin keep ov k =
+            applyPrims s ((prims c s (decompressCalls keep .bin ov)).take k) := by
+          intro k; simp [crashDecompress, hcb, hch, hov]
+        rw [hcr, prims_decompress c s cs hcb keep .bin ov]
+        generalize hA : ((if ov && (s.getOut .bin).isSome then [Prim.removeOut OutName.bin] else []) : List (Prim α γ)) = A
+        have hAlen : (if (ov && s.bin.isSome) = true then 1 else 0) = A.length := by
+          rw [← hA]; cases ov <;> cases hb : s.bin.isSome <;> simp [Fs.getOut, hb]
+        have hAs : (applyPrims s A).setOut OutName.bin = s.setOut OutName.bin := by
+          rw [← hA]; funext v; split <;> simp [applyPrims, applyPrim, Fs.setOut]
+        have hlenmap : cs.length = (cs.map c.dec).length := by simp
+        unfold decompressCrashPoint
+        rw [hAlen]
+        have hstep : (decompressFile c s .cbin keep .bin ov fault).1 =
+            match writeChunks fault (cs.map c.dec) with
+            | (part, false) => s.setOut .bin (some part)
+            | (all, true) => if keep then s.setOut .bin (some all) else { s.setOut .bin (some all) with cbin := none, ch := none } := by
+          simp only [decompressFile, hcb, hch, ne_eq, not_true_eq_false, if_false]
+          have : ¬ ((!ov && (s.getOut OutName.bin).isSome) = true) := by simpa [Fs.getOut] using hov
+          simp only [this]
+          cases hw : writeChunks fault (cs.map c.dec) with
+          | mk p fin => cases fin <;> cases keep <;> simp
+        rw [hstep]
+        cases hw : writeChunks fault (cs.map c.dec) with
+        | mk p fin =>
+          cases fin with
+          | false =>
+            obtain ⟨j, hj, hlt, hp⟩ := writeChunks_false _ _ _ hw
+            subst hj
+            have hlt' : j < cs.length := by simpa using hlt
+            simp only [faultPoint, hlt', if_true]
+            rw [applyPrims_take_out_phase s A _ _ _ j (by omega), hAs, hp]
+          | true =>
+            have hp := writeChunks_true _ _ _ hw
+            subst hp
+            have hpoint : faultPoint cs.length fault (cs.length + 2 + 1) = cs.length + 2 + 1 := by
+              apply faultPoint_full
+              intro j hj hlt
+              subst hj
+              simp [writeChunks, hlt] at hw
+            rw [hpoint, hlenmap, applyPrims_take_out_after s A _ _ _ 2, hAs]
+            cases keep <;> simp [applyPrims, applyPrim, Fs.setOut]
+
+/-! ### The trace invariant survives an interruption between any two effects -/
+
+theorem published_of_sameFinal (c : Codec α γ) (b : List α) (s s' : Fs α γ) (hs : Published c b s) (h : SameFinal s s') :
+    Published c b s' :=
+  ⟨by rw [h.bin]; exact hs.bin, by rw [h.cbin]; exact hs.cbin, by rw [h.ch]; exact hs.ch,
+   by rw [h.cbin, h.ch]; exact hs.hdr, by rw [h.sbin]; exact hs.sbin, by rw [h.bin, h.cbin, h.ch]; exact hs.held⟩
+
+theorem published_crashCompress (c : Codec α γ) (b : List α) (s : Fs α γ) (fb : DataName) (keep : Bool) (k : Nat)
+    (hs : Published c b s) : Published c b (crashCompress c s fb keep k) := by
+  have h := crashCompress_cases c s fb keep k
+  simp only at h
+  rcases h with h | ⟨l, _, hl, _, h⟩
+  · rw [h]; exact hs
+  · have : l = b := by rcases hs.bin with h' | h' <;> simp_all
+    subst this
+    rcases h with ⟨m, _, h⟩ | h | h | ⟨_, h⟩
+    · rw [h]; exact ⟨hs.bin, hs.cbin, hs.ch, hs.hdr, hs.sbin, hs.held⟩
+    · rw [h]
+      refine ⟨hs.bin, hs.cbin, Or.inr rfl, ?_, hs.sbin, Or.inl hl⟩
+      intro hsome
+      rcases hs.cbin with h' | h'
+      · simp [h'] at hsome
+      · simp [h']
+    · rw [h]
+      exact ⟨hs.bin, Or.inr rfl, Or.inr rfl, fun _ => rfl, hs.sbin, Or.inl hl⟩
+    · rw [h]
+      exact ⟨Or.inl rfl, Or.inr rfl, Or.inr rfl, fun _ => rfl, hs.sbin, Or.inr ⟨rfl, rfl⟩⟩
+
+theorem published_crashToScratch (c : Codec α γ) (hc : c.Lossless) (b : List α) (s : Fs α γ) (fb : DataName)
+    (scratch : Bool) (k : Nat) (hs : Published c b s) : Published c b (crashToScratch c s fb scratch k) := by
+  have h := crashToScratch_spec c s fb scratch k
+  simp only at h
+  rcases h with h | ⟨cs, _, hcb, _, _, h1, h2, h3⟩
+  · exact published_of_sameFinal c b s _ hs h
+  · have : cs = b.map c.enc := by rcases hs.cbin with h' | h' <;> simp_all
+    subst this
+    have hb := map_dec_enc c hc b
+    rw [hb] at h3
+    cases scratch
+    · simp only [Bool.false_eq_true, if_false] at h3
+      exact ⟨Or.inr h3.2.1, by rw [h1]; exact hs.cbin, by rw [h2]; exact hs.ch, by rw [h1, h2]; exact hs.hdr,
+        by rw [h3.1]; exact hs.sbin, Or.inl h3.2.1⟩
+    · simp only [if_true] at h3
+      exact ⟨by rw [h3.1]; exact hs.bin, by rw [h1]; exact hs.cbin, by rw [h2]; exact hs.ch, by rw [h1, h2]; exact hs.hdr,
+        Or.inr h3.2.1, by rw [h3.1, h1, h2]; exact hs.held⟩
+
+theorem published_stepX [DecidableEq α] [DecidableEq γ] (c : Codec α γ) (hc : c.Lossless) (b : List α) (s : Fs α γ)
+    (o : XOp) (hs : Published c b s) (ho : o.inScope) : Published c b (stepX c s o) := by
+  cases o with
+  | op o => exact published_step c hc b s o hs ho
+  | crashCompress fb keep k => exact published_crashCompress c b s fb keep k hs
+  | crashToScratch fb scratch k => exact published_crashToScratch c hc b s fb scratch k hs
+
+theorem published_runX [DecidableEq α] [DecidableEq γ] (c : Codec α γ) (hc : c.Lossless) (b : List α) (ops : List XOp) :
+    ∀ (s : Fs α γ), Published c b s → (∀ o ∈ ops, o.inScope) → Published c b (runX c s ops) := by
+  induction ops with
+  | nil => intro s hs _; exact hs
+  | cons o os ih =>
+    intro s hs ho
+    simp only [runX]
+    exact ih _ (published_stepX c hc b s o hs (ho o (by simp))) (fun o' h' => ho o' (by simp [h']))
 
 end IblVerif.FsCompress
